@@ -88,16 +88,19 @@ Section Gen.
       assert (Hsb : sib_of (a i) = a i + 1) by (unfold sib_of; lia).
       unfold nsib. destruct (N.ltb_spec ((a i + 1) * 2 ^ i) n) as [Hs1|Hs1].
       + destruct (right_sibling_some n hempty hleaf hbranch l Hlen i (a i) Hi ltac:(rewrite Hsb; exact Hs1)) as (s' & k' & Ers & Hvs & Eval & _).
-        rewrite Ers. unfold ProofCompleteTop.node_of. rewrite Hlen. destruct Hvs as [Hk' Hs'v].
-        destruct (N.ltb_spec (s' * 2 ^ k') n); [|lia]. rewrite <- Eval, Hsb.
+        rewrite Ers.
+        assert (Hno : node_of k' s' = Some (nval k' s')).
+        { unfold ProofCompleteTop.node_of. rewrite Hlen. destruct Hvs as [Hk' Hs'v]. destruct (N.ltb_spec (s' * 2 ^ k') n); [reflexivity|lia]. }
+        rewrite Hno. rewrite <- Eval, Hsb.
         assert (Einc : (a i + 1) * 2 ^ i + 2 ^ i = (a (N.of_nat (S s)) + 1) * 2 ^ N.of_nat (S s)).
-        { rewrite Hi1, a_succ, pow2_succ. Show. set (q := 2 ^ i) in *. nia. }
+        { rewrite Hi1, a_succ, pow2_succ. assert (Ha2 : a i = 2 * (a i / 2)) by lia. rewrite Ha2 at 1. ring. }
         rewrite Einc.
         rewrite IHk by lia. rewrite Hi1, <- app_assoc. reflexivity.
       + rewrite (right_sibling_none n hempty hleaf hbranch l Hlen i (a i) Hi ltac:(rewrite Hsb; exact Hs1)). rewrite app_nil_r. reflexivity.
     - rewrite even_mod2 in Ev. apply N.eqb_neq in Ev.
-      replace ((a i + 1) * 2 ^ i) with ((a (N.of_nat (S s)) + 1) * 2 ^ N.of_nat (S s))
-        by (rewrite Hi1, a_succ, pow2_succ; set (p := 2 ^ i) in *; nia).
+      assert (Einc : (a i + 1) * 2 ^ i = (a (N.of_nat (S s)) + 1) * 2 ^ N.of_nat (S s)).
+      { rewrite Hi1, a_succ, pow2_succ. assert (Ha2 : a i = 2 * (a i / 2) + 1) by lia. rewrite Ha2 at 1. ring. }
+      rewrite Einc.
       rewrite IHk by lia. rewrite Hi1. reflexivity.
   Qed.
 
@@ -135,7 +138,9 @@ Section Gen.
       rewrite <- N.negb_even, even_mod2. destruct (N.eqb_spec (c i mod 2) 0) as [Ev|Eo]; cbn [negb chunk_roots app].
       + (* digit 0 *)
         replace (S (N.to_nat i)) with (N.to_nat (i + 1)) by lia. rewrite <- c_succ.
-        replace (c i * 2 ^ i) with (c (i + 1) * 2 ^ (i + 1)) by (rewrite c_succ, pow2_succ; set (p := 2 ^ i) in *; lia).
+        assert (Ec : c i * 2 ^ i = c (i + 1) * 2 ^ (i + 1)).
+        { rewrite c_succ, pow2_succ. assert (Hc2 : c i = 2 * (c i / 2)) by lia. rewrite Hc2 at 1. ring. }
+        rewrite Ec.
         apply IHk. exact Hnext.
       + (* digit 1: the block (c i - 1) of layer i *)
         rewrite Hlen'. rewrite <- pow2_nat.
@@ -145,7 +150,9 @@ Section Gen.
           rewrite skipn_firstn_comm. f_equal. nia.
         * rewrite firstn_firstn. replace (Nat.min (N.to_nat ((c i - 1) * 2 ^ i)) (N.to_nat (c i * 2 ^ i))) with (N.to_nat ((c i - 1) * 2 ^ i)) by nia.
           replace (S (N.to_nat i)) with (N.to_nat (i + 1)) by lia. rewrite <- c_succ.
-          replace ((c i - 1) * 2 ^ i) with (c (i + 1) * 2 ^ (i + 1)) by (rewrite c_succ, pow2_succ; set (p := 2 ^ i) in *; lia).
+          assert (Ec : (c i - 1) * 2 ^ i = c (i + 1) * 2 ^ (i + 1)).
+          { rewrite c_succ, pow2_succ. assert (Hc2 : c i - 1 = 2 * (c i / 2)) by lia. rewrite Hc2. ring. }
+          rewrite Ec.
           apply IHk. exact Hnext.
   Qed.
 
